@@ -144,7 +144,7 @@ def likelihood_body_factory(ctx):
                 prob.ids = np.roll(ids0, 1)
                 if not np.array_equal(prob.ids, ids0):
                     ev2 = og.evaluate(prob, row)
-                    if abs(ev2["ll"] - ev["ll"]) > 10 * (ev["tol"] + ev2["tol"]):
+                    if abs(ev2["ll"] - ev["ll"]) > 10 * (og.tol_of(ev) + og.tol_of(ev2)):
                         ctx.classes["guard:labels matter"] += 1
                     else:
                         ctx.classes["guard:labels immaterial"] += 1
